@@ -41,7 +41,53 @@ crate::jser_struct! {
 }
 
 pub fn arb_triple(p: TreeParams) -> BoxedStrategy<(M, M, M)> {
-    (arb_doc(p), arb_doc(p), arb_doc(p), vec(arb_mutation(), 1..4), vec(arb_mutation(), 1..4), 0u8..8)
+    let general = (arb_doc(p), arb_doc(p), arb_doc(p), vec(arb_mutation(), 1..4), vec(arb_mutation(), 1..4), 0u8..8);
+    // three numeric neighbours of an integer drawn log-uniformly over all magnitudes, in mixed
+    // representations (v, v+1, v-1 as integers; v, v+0.5 and the adjacent doubles as floats)
+    let neighbours = (0u32..65, any::<u64>(), any::<u16>(), any::<bool>()).prop_map(|(s, bits, k, neg)| {
+        let v: u64 = if s == 0 { 0 } else { (1u64 << (s - 1)) | (bits & ((1u64 << (s - 1)) - 1)) };
+        let int = |x: u64, alt: bool| -> N {
+            if neg {
+                if x <= i64::MAX as u64 { N::I(-(x as i64)) } else { N::F(-(x as f64)) }
+            } else if alt && x <= i64::MAX as u64 {
+                N::I(x as i64)
+            } else {
+                N::U(x)
+            }
+        };
+        let fl = |f: f64| N::F(if neg { -f } else { f });
+        let f = v as f64;
+        let mut pool = vec![
+            int(v, k & 1 == 0),
+            int(v.wrapping_add(1), k & 2 == 0),
+            int(v.saturating_sub(1), k & 4 == 0),
+            fl(f),
+            fl(f64::from_bits(f.to_bits() + 1)),
+            fl(if f > 0.0 { f64::from_bits(f.to_bits() - 1) } else { 0.0 }),
+        ];
+        if v < (1u64 << 52) {
+            pool.push(fl(f + 0.5));
+            pool.push(fl((f - 0.5).max(0.0)));
+        }
+        let pickn = |q: u16| M::Num(pool[(q as usize) % pool.len()]);
+        let wrap = |m: M| match (k >> 12) % 3 {
+            0 => m,
+            1 => M::Arr(vec![M::Bool(true), m]),
+            _ => M::Obj([("k".to_string(), m)].into_iter().collect()),
+        };
+        (wrap(pickn(k >> 3)), wrap(pickn(k >> 6)), wrap(pickn(k >> 9)))
+    });
+    prop_oneof![
+        12 => arb_triple_general(general),
+        1 => neighbours,
+    ]
+    .boxed()
+}
+
+type General = (BoxedStrategy<M>, BoxedStrategy<M>, BoxedStrategy<M>, proptest::collection::VecStrategy<BoxedStrategy<Mutation>>, proptest::collection::VecStrategy<BoxedStrategy<Mutation>>, std::ops::Range<u8>);
+
+fn arb_triple_general(g: General) -> BoxedStrategy<(M, M, M)> {
+    g
         .prop_map(|(a, ib, ic, m1, m2, mode)| match mode {
             0 => (a, ib, ic),
             1 => {
